@@ -95,6 +95,22 @@ def touch_lazily(top, spec, r):
   return n
 
 
+def decorated_methods_are_ports(top):
+  """every method that a component's OWN class body decorates with @method_port / @non_blocking / @blocking
+  is a named child object <component>.<method> (what the class statement says, independent of which other
+  classes were elaborated before)"""
+  from pymtl3.dsl import Component
+  from pymtl3.dsl.NamedObject import NamedObject
+  for comp in sorted(top.get_all_object_filter(lambda x: isinstance(x, Component)), key=repr):
+    for x, raw in sorted(vars(type(comp)).items()):
+      if any(hasattr(raw, tag) for tag in ("_callee_port", "_non_blocking_rdy", "_blocking")):
+        child = comp.__dict__.get(x)
+        if not isinstance(child, NamedObject) or repr(child) != repr(comp) + "." + x:
+          return {"component": repr(comp), "class": type(comp).__name__.split("_")[0], "method": x,
+                  "found": type(child).__name__}
+  return None
+
+
 def run_ifc(case):
   from ..gen import emit
   D = _rng.Digest()
@@ -125,6 +141,10 @@ def run_ifc(case):
     bad, names = E.names_invariant(top)
     if bad:
       viols.append(C.viol(bad.pop("check"), dict(bad, ordering=k, family="ifc")))
+      break
+    bad = decorated_methods_are_ports(top)
+    if bad:
+      viols.append(C.viol("decorated_method_not_a_method_port", dict(bad, ordering=k, family="ifc")))
       break
     decl = {n for n in names if ":" not in n.rsplit("[", 1)[-1]}
     if names0 is None:
